@@ -51,11 +51,16 @@ class Part:
 _port_rng = random.Random(os.getpid() * 7919 + int(time.time() * 1000) % 100003)
 
 
+_ports_handed_out = set()
+
+
 def free_port():
     """A port for a daemon the driver is about to start.  Taken from below the ephemeral range (32768-60999 here), so that no
     outgoing connection of any program can be given the same number between this probe and the daemon's bind."""
     for _ in range(200):
         p = _port_rng.randrange(20000, 32000)
+        if p in _ports_handed_out:      # never the same number twice (a daemon gets a control and a transport port)
+            continue
         s = socket.socket()
         try:
             s.bind(("0.0.0.0", p))
@@ -63,6 +68,7 @@ def free_port():
             s.close()
             continue
         s.close()
+        _ports_handed_out.add(p)
         return p
     s = socket.socket()
     s.bind(("127.0.0.1", 0))
@@ -695,7 +701,11 @@ def c32(ctx):
                 continue
             if not wait_control(cport, 20):
                 if bind_trouble(d.output()):
-                    part.inconclusive("daemon could not bind the port chosen by the driver (case %d)" % i)
+                    # environment: the case is skipped (the minimum numbers of probed daemons still have to be met);
+                    # only a run in which this keeps happening is inconclusive
+                    part.note("config.cases-skipped-port-taken")
+                    if part.res.counters.get("config.cases-skipped-port-taken", 0) > 3:
+                        part.inconclusive("daemons repeatedly could not bind the ports chosen by the driver")
                 else:
                     part.violation("C32:daemon:valid-configuration-did-not-start", dict(detail, output=d.output()[-600:]), i)
                 continue
